@@ -14,7 +14,7 @@ import sys, json
 d,p,k,c=sys.argv[1:5]
 try: notes=open(d+'/notes.md').read()[:1500]
 except Exception: notes=''
-json.dump({"id":"%s-m%s"%(p,k),"property":p,"base_commit":c,"round":2,"needs_to_manifest":notes,
+json.dump({"id":"%s-m%s"%(p,k),"property":p,"base_commit":c,"round":int(__import__("os").environ.get("SEED_ROUND","2")),"needs_to_manifest":notes,
  "confirmed":{"how":"tools/confirm_seed.sh in a scratch worktree: git apply patch.diff; cargo test --offline (suite green); demo.rs as tests/verif_demo.rs fails; git checkout -- src; demo passes","suite_with_change":"ok","demo_with_change":"fail","demo_without_change":"pass"},
  "origin":"independent sub-agent given only the property text and a scratch worktree"},open(d+'/meta.json','w'),indent=1)
 PY
